@@ -62,7 +62,7 @@ def build(ctx):
     ]
     for fn, exp in (('fe_derive', [r'postcondition\.2', r'precondition']), ('fe_offset_sched', [r'postcondition\.3']),
                     ('fe_offset_tail', [r'postcondition\.3']), ('c17_foreach_partition', [r'assertion\.5', r'precondition\.3'])):
-        units.append(Unit('for_each_n.' + fn, 'intwp', 'specs/c17_foreach.c', fn, timeout=120, expect=exp,
+        units.append(Unit('for_each_n.' + fn, 'intwp', 'specs/c17_foreach.c', fn, timeout=300, expect=exp,
                           replay=c17.replay_args('fe') if fn == 'fe_derive' else None))
     units.append(Unit('staticChunkSize', 'intwp', 'specs/c17_chunking.c', 'staticChunkSize', timeout=60, expect=[r'postcondition\.5'], replay=c17.replay_args('scs')))
     return units
